@@ -42,6 +42,8 @@ CAUSES = ('rst', 'deadline', 'goaway', 'protoerr', 'lost', 'srvclose')
 def gen_prog(rng, beh):
     n = rng.choice([1, 1, 2, 2, 3, 4])
     if beh == 'sw':
+        if rng.random() < 0.3:
+            n += 4          # still busy after several cancellations
         return ''.join(rng.choice('RS') for _ in range(n))
     p = ''
     for k in range(n):
@@ -65,7 +67,7 @@ def gen_script(rng, big=False):
     nconn = rng.choice([1, 1, 2, 2, 3])
     for _ in range(nconn):
         s.append(['connect', int(rng.random() < 0.35)])
-    nxt = [0] * 8
+    nxt = [0] * 32
     streams = []
     closed_srv = False
 
@@ -124,9 +126,12 @@ def gen_script(rng, big=False):
             s.append(['wait'])
             maybe_settle()
         else:
-            s.append(['connect', int(rng.random() < 0.3)])
-            if nconn < 6:
-                nconn += 1
+            # new client connections, singly or in bursts that cross the Server-level GC interval
+            # (Server._protocol_factory -> __gc_step__ -> every 10th: __gc_collect__ of closing handlers)
+            for _ in range(rng.choice([1, 1, 2, 5, 9, 10, 11] if (big or rng.random() < 0.3) else [1])):
+                if nconn < 26:
+                    s.append(['connect', int(rng.random() < 0.3)])
+                    nconn += 1
     # epilogue: usually shut down and let every cleanup finish
     if rng.random() < 0.8:
         if not closed_srv:
@@ -183,6 +188,49 @@ def matrix_scripts():
                           ['lose', 2]] + [['tick']] * 4
                     out.append({'kind': 'script', 'name': 'matrix:%s:%s:%s:%d' % (cause, pos, beh, lazy),
                                 'script': s})
+    return out
+
+
+def gc_scripts():
+    """Server-level and Handler-level GC at every alignment relative to a cancelled handler that is still
+    in its slow cleanup: first cause x (connection dropped or not) x number of connections accepted before /
+    after x accepts on the same connection, then Server.close(); wait_closed().  wait_closed() must not
+    return before the cleanup has finished, whatever the sweeps collected."""
+    out = []
+    for first in ('rst', 'lose', 'deadline', 'goaway'):
+      for beh, prog in (('h3', 'RS'), ('sw', 'RSSSSS')):     # a cleanup that a second cancel abandons (D20) /
+        for drop in (0, 1):                                   # a handler that survives it and is still busy
+            for before in (0, 3, 8, 9):
+                for after in (0, 1, 9, 10, 11, 20):
+                    if before + after > 22 or (beh == 'sw' and before == 3):
+                        continue
+                    s = [['start']] + [['connect', 0]] * (1 + before)
+                    s += [['open', 0, 0, beh, 2 if first == 'deadline' else 0, prog],
+                          ['open', 0, 1, 'h1', 0, ''], ['settle']]
+                    if first == 'deadline':
+                        s += [['tick'], ['tick']]
+                    elif first == 'lose':
+                        s += [['lose', 0], ['settle']]
+                    else:
+                        s += [[first, 0, 0] if first == 'rst' else [first, 0], ['settle']]
+                    if drop and first != 'lose':
+                        s += [['lose', 0], ['settle']]
+                    s += [['connect', 0]] * after
+                    s += [['srvclose'], ['wait'], ['settle']]
+                    s += [['lose', c] for c in range(1 + before + after)]
+                    s += [['settle']] + [['tick']] * 4
+                    out.append({'kind': 'script', 'name': 'gc:%s:%s:drop%d:%d+%d' % (first, beh, drop, before, after),
+                                'script': s})
+    # Handler-level GC: the 10th accept on a connection while earlier handlers are finished / cancelled /
+    # in cleanup, then a reset or a close
+    for n in (8, 9, 10, 11, 19, 20):
+        for cause in (['rst', 0, 0], ['lose', 0], ['srvclose']):
+            s = [['start'], ['connect', 0], ['connect', 0], ['open', 0, 0, 'h3', 0, 'SS'], ['settle'],
+                 ['rst', 0, 0] if cause[0] != 'rst' else ['settle'], ['settle']]
+            s += [['open', 0, i, 'h1', 0, '' if i % 2 else 'S'] for i in range(1, n)]
+            s += [['settle'], cause, ['settle'], ['open', 0, n, 'h1', 0, 'S'], ['settle'],
+                  ['srvclose'], ['wait'], ['settle'], ['lose', 0], ['lose', 1], ['settle']] + [['tick']] * 4
+            out.append({'kind': 'script', 'name': 'hgc:%d:%s' % (n, cause[0]), 'script': s})
     return out
 
 
@@ -378,7 +426,8 @@ def micro_gc_keyerror():
     """Server.close() cancels a handler task that has not run yet; the task ends (cancelled) but its
     done-callback -- the only thing that releases a never-run task's stream -- has not run; in that
     loop iteration the connection reads HEADERS of a 10th stream (Handler.accept -> __gc_collect__ drops
-    the finished task from _tasks) followed by RST_STREAM of the cancelled stream."""
+    the finished task from _tasks) followed by RST_STREAM of the cancelled stream.  (D91, repaired in
+    c48c3b0: Handler.cancel used to raise KeyError out of data_received here.)"""
     from harness import vloop
     with vloop.session() as loop:
         sc = U.Scenario(loop)
@@ -615,12 +664,15 @@ def run(ctx):
                 'cleanup) or swallowing cancellation, optional grpc-timeout; PRNG interleavings of open / message / '
                 'credit / tick / RST / GOAWAY / protocol error / connection_lost / Server.close / wait_closed, with '
                 'and without a loop run in between (HEADERS+RST in one read); complete matrix cause x life-cycle '
-                'position x behaviour x transport kind; complete cause-pair matrix; micro-interleavings; '
+                'position x behaviour x transport kind; complete cause-pair matrix; Server-level and Handler-level GC '
+                'sweeps (bursts of up to 25 connections / 20 accepts) at every alignment relative to a cancelled '
+                'handler in its cleanup, followed by Server.close + wait_closed; micro-interleavings; '
                 'graceful_exit over all started/not-started vectors up to 3 servers x signal sequences up to 3; '
                 'distinct = distinct multiset of per-handler (phase, cancels, cleanup-hits) histories')
     cases = list(ctx.corpus())
     cases += matrix_scripts()
     cases += pair_cases()
+    cases += gc_scripts()
     cases += [{'kind': 'micro', 'name': n} for n in sorted(MICRO)]
     for _ in range(ctx.n(500, 12000)):
         cases.append({'kind': 'script', 'script': gen_script(rng)})
